@@ -22,14 +22,66 @@ for g in prog.functions.values():
         funcs.setdefault(g.name, set()).add(g.qn)
 
 
-def sources(mod, seen=None):
+def is_prose(text):
+    """an obligation / rule description rather than a key, a stub name or a rendering: five or more words, mostly plain
+    English words. What a rule depends on also occurs in a short literal (an env key, a stub name, a compared rendering)."""
+    words = text.split()
+    if len(words) < 5:
+        return False
+    plain = [w for w in words if re.fullmatch(r"[A-Za-z][a-z']*[,.:;)]?|\(?[a-z]+", w)]
+    return len(plain) >= 0.6 * len(words)
+
+
+def imports_of(path):
+    """[(rule file, [imported names] or None for the whole module)] of the relative imports of a rule file"""
+    out = []
+    tree = ast.parse(open(path).read())
+    for n in ast.walk(tree):
+        if isinstance(n, ast.ImportFrom) and n.level == 1 and n.module and os.path.exists("rules/%s.py" % n.module):
+            names = [a.name for a in n.names]
+            out.append((n.module, None if "*" in names else names))
+    return out
+
+
+def tokens_of(mod, only=None, seen=None):
+    """identifiers in the string literals of a rule file - of the whole file, or only of the named top-level functions
+    (and the module-level constants they use) when just those are imported - plus, transitively, of what it imports"""
     seen = seen if seen is not None else set()
-    if mod in seen or not os.path.exists("rules/%s.py" % mod):
-        return seen
-    seen.add(mod)
-    for m in re.finditer(r"^\s*from \.(\w+) import", open("rules/%s.py" % mod).read(), re.M):
-        sources(m.group(1), seen)
-    return seen
+    key = (mod, tuple(sorted(only)) if only else None)
+    if key in seen:
+        return set()
+    seen.add(key)
+    path = "rules/%s.py" % mod
+    tree = ast.parse(open(path).read())
+    toks = set()
+    if only is None:
+        toks |= literal_tokens(path)
+        for m2, names in imports_of(path):
+            toks |= tokens_of(m2, names, seen)
+        return toks
+    consts = {t.id: n for n in tree.body if isinstance(n, ast.Assign) for t in n.targets if isinstance(t, ast.Name)}
+    funcs_ = {n.name: n for n in tree.body if isinstance(n, ast.FunctionDef)}
+    todo, done = list(only), set()
+    while todo:
+        nm = todo.pop()
+        if nm in done:
+            continue
+        done.add(nm)
+        node = funcs_.get(nm) or consts.get(nm)
+        if node is None:
+            continue
+        for x in ast.walk(node):
+            if isinstance(x, ast.Constant) and isinstance(x.value, str) and not is_prose(x.value):
+                toks |= set(re.findall(r"[A-Za-z_~][A-Za-z0-9_]*", x.value))
+            if isinstance(x, ast.Name) and (x.id in funcs_ or x.id in consts):
+                todo.append(x.id)
+            if isinstance(x, ast.ImportFrom) and x.level == 1 and x.module and os.path.exists("rules/%s.py" % x.module):
+                toks |= tokens_of(x.module, [a.name for a in x.names], seen)
+    # what the imported functions use from that file's own star-imports (common.py helpers)
+    for m2, names in imports_of(path):
+        if names is None:
+            toks |= tokens_of(m2, None, seen)
+    return toks
 
 
 def literal_tokens(path):
@@ -41,7 +93,7 @@ def literal_tokens(path):
             doc.add(id(n.body[0].value))
     toks = set()
     for n in ast.walk(tree):
-        if isinstance(n, ast.Constant) and isinstance(n.value, str) and id(n) not in doc:
+        if isinstance(n, ast.Constant) and isinstance(n.value, str) and id(n) not in doc and not is_prose(n.value):
             toks |= set(re.findall(r"[A-Za-z_~][A-Za-z0-9_]*", n.value))
     return toks
 # classes whose members a module reads from the program's own tables rather than naming them in a literal: all of their
@@ -80,9 +132,7 @@ def relevant(mod, toks):
 
 for i in range(1, 21):
     mod = "C%02d" % i
-    toks = set()
-    for m in sources(mod):
-        toks |= literal_tokens("rules/%s.py" % m)
+    toks = tokens_of(mod)
     rel_m, rel_f, rel_g = relevant(mod, toks)
     globs[mod] = sorted(toks & rel_g)
     members[mod] = sorted([c, f] for f in toks & set(fields) for c in fields[f] if (c, f) in rel_m)
